@@ -60,3 +60,37 @@ func parkedPublisher(run *vk.Run) {
 		}
 	}
 }
+
+// reattachedID: two subscription ids follow the same event type on one bus; one of them is attached
+// a second time (a component that reconnects). Whatever that does to the id itself, the other id
+// goes on receiving every event exactly once.
+func reattachedID(run *vk.Run) {
+	ctx := context.Background()
+	for variant := 0; variant < 4; variant++ {
+		again := []string{"billing", "audit"}[variant%2]
+		other := []string{"audit", "billing"}[variant%2]
+		third := variant >= 2 // a third id of the same type in between
+		mem, subs := ebu.NewMemoryStore(), ebu.NewMemoryStore()
+		bus := ebu.New(ebu.WithStore(mem), ebu.WithSubscriptionStore(subs))
+		got := map[string][]int{}
+		h := func(id string) func(tA) { return func(e tA) { got[id] = append(got[id], e.ID) } }
+		ebu.SubscribeWithReplay(ctx, bus, "billing", h("billing"))
+		if third {
+			ebu.SubscribeWithReplay(ctx, bus, "metrics", h("metrics"))
+		}
+		ebu.SubscribeWithReplay(ctx, bus, "audit", h("audit"))
+		ebu.Publish(bus, tA{ID: 1})
+		ebu.Publish(bus, tA{ID: 2})
+		err := ebu.SubscribeWithReplay(ctx, bus, again, h(again+"-again"))
+		ebu.Publish(bus, tA{ID: 3})
+		ebu.Publish(bus, tA{ID: 4})
+		run.Case(fmt.Sprintf("an id attached a second time next to other ids|%s|third%v", again, third), true)
+		bad := fmt.Sprint(got[other]) != "[1 2 3 4]"
+		if third && fmt.Sprint(got["metrics"]) != "[1 2 3 4]" {
+			bad = true
+		}
+		if bad {
+			run.Violation("resume:other-id-starved-by-a-reattached-id", fmt.Sprintf("ids billing%s and audit follow one event type; %q is attached a second time after events 1 and 2 (returned %v), then events 3 and 4 are published: %q received %v, metrics %v (want [1 2 3 4] each)", map[bool]string{true: ", metrics", false: ""}[third], again, err, other, got[other], got["metrics"]), map[string]any{"delivered": got})
+		}
+	}
+}
